@@ -96,8 +96,8 @@ def num_tree(rng, t, depth, exact_only=True, allow_minmax=True):
     if k == "un": return Node("un", rng.choice(["-", "-", "+"]), [num_tree(rng, t, depth - 1, exact_only, allow_minmax)])
     if k == "abs": return Node("fn1", "abs", [num_tree(rng, t, depth - 1, exact_only, allow_minmax)])
     if k == "sqrt": return Node("fn1", "sqrt", [Node("fn1", "abs", [num_tree(rng, t, depth - 1, exact_only, allow_minmax)])])
-    if k == "round":   # std::round is exercised alone (atom): the SIMD body rounds half to even (known finding KF-C02-1)
-        return Node("fn1", rng.choice(["ceil", "floor", "trunc"]), [num_tree(rng, t, depth - 1, exact_only, allow_minmax)])
+    if k == "round":
+        return Node("fn1", rng.choice(["ceil", "floor", "trunc", "round"]), [num_tree(rng, t, depth - 1, exact_only, allow_minmax)])
     if k == "conj": return Node("fn1", "conj", [num_tree(rng, t, depth - 1, exact_only, allow_minmax)])
     if k == "minmax":
         return Node("fn2", rng.choice(["min", "max"]), [num_tree(rng, t, depth - 1, exact_only, True), num_tree(rng, t, depth - 1, exact_only, True)])
